@@ -424,6 +424,7 @@ impl Machine {
                 Val::Env(self.env(e)?.add_assertion(known_values::SIGNED, signature))
             }
             ["decode", hx] => res(Envelope::from_tagged_cbor_data(hex::decode(hx).ok()?)),
+            ["from_ur", text] => res(Envelope::from_ur_string(*text)),
             ["recode", e] => res(Envelope::from_tagged_cbor_data(self.env(e)?.tagged_cbor().to_cbor_data())),
             ["proof", e, ts] => {
                 let t = self.digest_set(ts)?;
@@ -438,6 +439,7 @@ impl Machine {
             ["shape", e] => shape(&self.env(e)?),
             ["digest", e] => dhex(&self.env(e)?.digest()),
             ["bytes", e] => hex::encode(self.env(e)?.tagged_cbor().to_cbor_data()),
+            ["ur", e] => self.env(e)?.ur_string(),
             ["sdigest", e] => dhex(&self.env(e)?.structural_digest()),
             ["count", e] => self.env(e)?.elements_count().to_string(),
             ["walk", e, mode] => {
